@@ -220,39 +220,51 @@ func OtherID(code *jen.Statement) *JenID {
 
 // TypeOf creates a Type.
 func TypeOf(t types.Type) *Type {
+	return typeOf(t, map[types.Type]*Type{})
+}
+
+// typeOf remembers the named types it is currently describing, so that self-referential
+// types like "type List []List" refer back to their own description instead of recursing forever.
+func typeOf(t types.Type, seen map[types.Type]*Type) *Type {
 	t = types.Unalias(t)
+	if rt, ok := seen[t]; ok {
+		return rt
+	}
 	rt := &Type{}
 	rt.T = t
 	rt.String = t.String()
-	applyTo(rt, t)
+	if _, ok := t.(*types.Named); ok {
+		seen[t] = rt
+	}
+	applyTo(rt, t, seen)
 	return rt
 }
 
-func applyTo(rt *Type, t types.Type) {
+func applyTo(rt *Type, t types.Type, seen map[types.Type]*Type) {
 	switch value := t.(type) {
 	case *types.Pointer:
 		rt.Pointer = true
 		rt.PointerType = value
-		rt.PointerInner = TypeOf(value.Elem())
+		rt.PointerInner = typeOf(value.Elem(), seen)
 	case *types.Basic:
 		rt.Basic = true
 		rt.BasicType = value
 	case *types.Map:
 		rt.Map = true
 		rt.MapType = value
-		rt.MapKey = TypeOf(value.Key())
-		rt.MapValue = TypeOf(value.Elem())
+		rt.MapKey = typeOf(value.Key(), seen)
+		rt.MapValue = typeOf(value.Elem(), seen)
 	case *types.Slice:
 		rt.List = true
-		rt.ListInner = TypeOf(value.Elem())
+		rt.ListInner = typeOf(value.Elem(), seen)
 	case *types.Array:
 		rt.List = true
 		rt.ListFixed = true
-		rt.ListInner = TypeOf(value.Elem())
+		rt.ListInner = typeOf(value.Elem(), seen)
 	case *types.Named:
 		rt.Named = true
 		rt.NamedType = value
-		applyTo(rt, value.Underlying())
+		applyTo(rt, value.Underlying(), seen)
 	case *types.Struct:
 		rt.Struct = true
 		rt.StructType = value
